@@ -152,6 +152,35 @@ pub fn oracle_r(_ctx: &RunCtx, gp: &GenPoint, log: &mut CaseLog) -> Result<(), S
             ));
         }
     }
+    // the compressed forms HANDED TO THE TRANSCRIPT are the encodings of the same points: observe what prover and verifier
+    // absorb for H and G (small parameter sets; one commitment)
+    if bits * cap <= 64 {
+        use crate::tapx::{tapped, Event};
+        use tari_bulletproofs_plus::{commitment_opening::CommitmentOpening, range_proof::{RangeProof, VerifyAction}, range_statement::RangeStatement, range_witness::RangeWitness};
+        let r: Vec<Scalar> = (0..ext).map(|k| Scalar::from(k as u64 + 3)).collect();
+        let c = p.pc_gens().commit(&Scalar::ONE, &r).map_err(|e| format!("{:?}", e))?;
+        let st = RangeStatement::init(p.clone(), vec![c], vec![None], None).map_err(|e| format!("{:?}", e))?;
+        let w = RangeWitness::init(vec![CommitmentOpening::new(1, r)]).map_err(|e| format!("{:?}", e))?;
+        let (proof, pev) = tapped(|| guarded(|| RangeProof::prove_with_rng(&mut merlin::Transcript::new(b"c11"), &st, &w, &mut crate::eng::RngSpec::ChaCha(gp.bulk).make())));
+        let proof = proof?.map_err(|e| format!("{:?}", e))?;
+        let (res, vev) = tapped(|| guarded(|| RangeProof::verify_batch(&mut [merlin::Transcript::new(b"c11")], &[st.clone()], &[proof.clone()], VerifyAction::VerifyOnly)));
+        res?.map_err(|e| format!("{:?}", e))?;
+        for (who, ev) in [("prover", &pev), ("verifier", &vev)] {
+            let hs: Vec<&Vec<u8>> = ev.iter().filter_map(|e| if let Event::Append { label, data } = e { if label == b"H" { Some(data) } else { None } } else { None }).collect();
+            let gs: Vec<&Vec<u8>> = ev.iter().filter_map(|e| if let Event::Append { label, data } = e { if label == b"G" { Some(data) } else { None } } else { None }).collect();
+            if hs.len() != 1 || hs[0].as_slice() != p.h_base().compress().as_bytes() {
+                return Err(format!("the {} does not hand the encoding of the value generator to the transcript", who));
+            }
+            if gs.len() != ext {
+                return Err(format!("the {} hands {} blinding generators to the transcript at extension degree {}", who, gs.len(), ext));
+            }
+            for k in 0..ext {
+                if gs[k].as_slice() != p.g_bases()[k].compress().as_bytes() {
+                    return Err(format!("the {} hands something other than the encoding of blinding generator {} to the transcript", who, k));
+                }
+            }
+        }
+    }
     // deterministic: second construction, clone, other threads
     let again = guarded(build)?.map_err(|e| format!("{:?}", e))?;
     if digest_r(&again) != all || digest_r(&p.clone()) != all {
@@ -226,7 +255,7 @@ pub fn def() -> PropertyDef {
         rule: "Enumerated grid: bit length in {1,2,4,8,16,32,64} x capacity in {1,2,..,32} (thorough: ..128), continued for small bit lengths until bits*capacity = 2048 (thorough 8192) so that party indices >= 256 occur, x extension degree (all six for small \
                sets, round-robin for large ones), freshly constructed (no cache). Oracle on Ristretto: value generator == basepoint; blinding \
                generator k == SHA3-512(\"RISTRETTO_MASKING_BASEPOINT_<k+1>\") mapped to the group; vector generator (party i, index j) == the \
-               independent SHAKE256 chain derivation, party-major; compressed forms == compress(point); all compressed generators of the set \
+               independent SHAKE256 chain derivation, party-major; compressed forms == compress(point), and (small sets) the H / G messages that prover and verifier absorb into the transcript, observed through the instrumented merlin copy, are exactly those encodings, one per blinding generator; all compressed generators of the set \
                pairwise distinct and none the identity; precomputed table: for one dense random scalar vector, three sparse ones and one unit \
                vector, table.vartime_multiscalar_mul(c) == sum c_t * (interleaved G_0,H_0,G_1,H_1,..)_t; second construction, clone and (for a \
                fifth of the small sets) 8 concurrent constructions give identical bytes. Over the free module the table entries are compared \
